@@ -682,13 +682,33 @@ impl Execute for ast::CompoundCommand {
                 // the shell, break out of loops, etc.
                 Ok(ExecutionResult::from(subshell_result.exit_code))
             }
-            Self::ForClause(f) => f.execute(shell, params).await,
+            Self::ForClause(f) => {
+                let outer = shell.set_loop_depth(shell.loop_depth() + 1);
+                let result = f.execute(shell, params).await;
+                shell.set_loop_depth(outer);
+                result
+            }
             Self::CaseClause(c) => c.execute(shell, params).await,
             Self::IfClause(i) => i.execute(shell, params).await,
-            Self::WhileClause(w) => (WhileOrUntil::While, w).execute(shell, params).await,
-            Self::UntilClause(u) => (WhileOrUntil::Until, u).execute(shell, params).await,
+            Self::WhileClause(w) => {
+                let outer = shell.set_loop_depth(shell.loop_depth() + 1);
+                let result = (WhileOrUntil::While, w).execute(shell, params).await;
+                shell.set_loop_depth(outer);
+                result
+            }
+            Self::UntilClause(u) => {
+                let outer = shell.set_loop_depth(shell.loop_depth() + 1);
+                let result = (WhileOrUntil::Until, u).execute(shell, params).await;
+                shell.set_loop_depth(outer);
+                result
+            }
             Self::Arithmetic(a) => a.execute(shell, params).await,
-            Self::ArithmeticForClause(a) => a.execute(shell, params).await,
+            Self::ArithmeticForClause(a) => {
+                let outer = shell.set_loop_depth(shell.loop_depth() + 1);
+                let result = a.execute(shell, params).await;
+                shell.set_loop_depth(outer);
+                result
+            }
             Self::Coprocess(c) => c.execute(shell, params).await,
             Self::ExtendedTest(e) => {
                 let result =
